@@ -24,19 +24,19 @@ Definition o0 := {| o_strict := false; o_force := false; o_usedef := false; o_sd
 
 (* G1: a required member of type [T, null] is not required in pydantic v2 output (= None is emitted) *)
 Theorem C05_required_nullable_refuted :
-  exists r, lookup field_table (key (flags_of KV2 (mk true DNo true false) o0)) = Some r
+  exists r, lookup field_table (cell_key (flags_of KV2 (mk true DNo true false) o0)) = Some r
             /\ c05_ok KV2 (mk true DNo true false) o0 r = false.
 Proof. eexists. split; [vm_compute; reflexivity | vm_compute; reflexivity]. Qed.
 
 (* G2: nullable: true without --strict-nullable on a required member: the hint does not admit None *)
 Theorem C05_nullable_keyword_refuted :
-  exists r, lookup field_table (key (flags_of KV2 (mk true DNo false true) o0)) = Some r
+  exists r, lookup field_table (cell_key (flags_of KV2 (mk true DNo false true) o0)) = Some r
             /\ c05_ok KV2 (mk true DNo false true) o0 r = false.
 Proof. eexists. split; [vm_compute; reflexivity | vm_compute; reflexivity]. Qed.
 
 (* G3: --strip-default-none makes a non-required member required in pydantic v2 output *)
 Theorem C05_strip_default_none_refuted :
-  exists r, lookup field_table (key (flags_of KV2 (mk false DNo false false)
+  exists r, lookup field_table (cell_key (flags_of KV2 (mk false DNo false false)
               {| o_strict := false; o_force := false; o_usedef := false; o_sdn := true; o_ua := false; o_fc := false; o_udk := false |})) = Some r
             /\ required_rt KV2 r = true.
 Proof. eexists. split; [vm_compute; reflexivity | vm_compute; reflexivity]. Qed.
